@@ -656,85 +656,117 @@ func c17Output(c *Ctx, run *ssa.Function) {
 		desc := isScoreDescComparator(comparatorFunc(call.Common().Args[1]))
 		r.Check(desc, "O-2", key, c.P.Pos(call.Pos()), "stable sort by Score descending", "the display sort does not order by Score descending")
 	})
+	// The places where the list is walked and printed: the command itself and
+	// the helpers of package cli it hands the list to.
+	type routine struct {
+		fn     *ssa.Function
+		isList func(ssa.Value) bool
+		via    *ssa.Call // the call in the command (nil: the command itself)
+	}
+	routines := []routine{{run, isCellLoad, nil}}
+	for _, rt := range outputRoutines(c, run) {
+		if !isCellLoad(rt.arg) {
+			continue
+		}
+		p := rt.param
+		routines = append(routines, routine{rt.fn, func(v ssa.Value) bool { return v == ssa.Value(p) || ssau.ParamOf(v) == p }, rt.call})
+	}
 	// print loops over the result list
 	loops := 0
-	seenBody := map[*ssa.BasicBlock]bool{}
-	var jsonBody *ssa.BasicBlock
-	ssau.ForEachInstr(run, false, func(in ssa.Instruction) {
-		ia, ok := in.(*ssa.IndexAddr)
-		if !ok || !isCellLoad(ia.X) {
-			return
-		}
-		body := ia.Block()
-		if seenBody[body] {
-			return
-		}
-		// header: predecessor ending in `i < len(x)` with body as true successor
-		var header *ssa.BasicBlock
-		for _, p := range body.Preds {
-			if len(p.Succs) == 2 && p.Succs[0] == body {
-				header = p
+	type jsonLoop struct {
+		rt   routine
+		body *ssa.BasicBlock
+	}
+	var jsonBody *jsonLoop
+	for _, rt := range routines {
+		rt := rt
+		for _, l := range ssau.RangeLoops(rt.fn) {
+			if l.IsMap || l.Over == nil || !rt.isList(l.Over) {
+				continue
 			}
-		}
-		if header == nil {
-			return
-		}
-		seenBody[body] = true
-		loops++
-		eng := pathev.New(func(in ssa.Instruction) []string {
-			if call, ok := in.(*ssa.Call); ok {
-				if isPrintCall(call) {
+			body, header := l.Body, l.Header
+			idxVal := l.Index
+			pos := c.P.Pos(body.Instrs[0].Pos())
+			loops++
+			// items of the output list: an append to it, or the fill of out[i] of a
+			// list made with len(results) elements (i the loop's own index)
+			isItem := func(in ssa.Instruction) bool {
+				switch x := in.(type) {
+				case *ssa.Call:
+					return ssau.CallName(x) == "builtin.append" && !strings.HasPrefix(x.Type().String(), "[]string")
+				case *ssa.IndexAddr:
+					if mk, ok := x.X.(*ssa.MakeSlice); ok && x.Index == idxVal {
+						if lc, ok := mk.Len.(*ssa.Call); ok && ssau.CallName(lc) == "builtin.len" && rt.isList(lc.Common().Args[0]) {
+							return true
+						}
+					}
+				}
+				return false
+			}
+			eng := pathev.New(func(in ssa.Instruction) []string {
+				if call, ok := in.(*ssa.Call); ok && isPrintCall(call) {
 					return []string{"print"}
 				}
-				if ssau.CallName(call) == "builtin.append" {
-					return []string{"append"}
-				}
-			}
-			return nil
-		}, nil)
-		m, early, reach := eng.Between(body, header)
-		key := fmt.Sprintf("%s#print-loop-%d", fk, loops)
-		if !reach || len(early) > 0 {
-			r.Bad("O-2", key, c.P.Pos(ia.Pos()), "a loop over the results can leave early (return/break path) before all results are emitted")
-			return
-		}
-		if m.Get("print").Always() {
-			r.OK("O-2", key, c.P.Pos(ia.Pos()), "every iteration prints")
-		} else if m.Get("append").ExactlyOnce() && m.Get("print").Never() {
-			jsonBody = body
-			r.OK("O-3", fk+"#json-one-item-per-result", c.P.Pos(ia.Pos()), "exactly one append to the output list per result")
-		} else if m.Get("print").Never() && m.Get("append") != pathev.Zero {
-			// the json item loop may append more slices (keywords/platforms copies): count appends to []outItem only
-			e2 := pathev.New(func(in ssa.Instruction) []string {
-				if call, ok := in.(*ssa.Call); ok && ssau.CallName(call) == "builtin.append" {
-					if !strings.HasPrefix(call.Type().String(), "[]string") {
-						return []string{"append-item"}
-					}
+				if isItem(in) {
+					return []string{"item"}
 				}
 				return nil
 			}, nil)
-			m2, _, _ := e2.Between(body, header)
-			jsonBody = body
-			r.Check(m2.Get("append-item").ExactlyOnce(), "O-3", fk+"#json-one-item-per-result", c.P.Pos(ia.Pos()), "exactly one append to the output list per result", fmt.Sprintf("the json item loop appends %v items per result", m2.Get("append-item")))
-		} else {
-			r.Bad("O-2", key, c.P.Pos(ia.Pos()), fmt.Sprintf("a loop over the results does not emit on every iteration (print%v): results are filtered at display time", m.Get("print")))
+			m, early, reach := eng.Between(body, header)
+			key := fmt.Sprintf("%s#print-loop-%d", fk, loops)
+			if !reach || len(early) > 0 {
+				r.Bad("O-2", key, pos, "a loop over the results can leave early (return/break path) before all results are emitted")
+				continue
+			}
+			switch {
+			case m.Get("print").Always():
+				r.OK("O-2", key, pos, "every iteration prints")
+			case m.Get("print").Never() && m.Get("item") != pathev.Zero:
+				jsonBody = &jsonLoop{rt, body}
+				r.Check(m.Get("item").ExactlyOnce(), "O-3", fk+"#json-one-item-per-result", pos, "exactly one item of the output list per result", fmt.Sprintf("the json item loop produces %v items per result", m.Get("item")))
+			default:
+				r.Bad("O-2", key, pos, fmt.Sprintf("a loop over the results does not emit on every iteration (print%v): results are filtered at display time", m.Get("print")))
+			}
 		}
-	})
+	}
 	r.Floor("O-2", "loops over the result list", loops, 3)
-	// json branch: one Encode, no fmt.Print
-	var encodes []*ssa.Call
-	ssau.ForEachInstr(run, false, func(in ssa.Instruction) {
-		if call, ok := in.(*ssa.Call); ok && ssau.CallName(call) == "(*encoding/json.Encoder).Encode" {
-			encodes = append(encodes, call)
-		}
-	})
+
+	// the JSON block is written once: Encoder.Encode(list), or the bytes of
+	// json.Marshal/MarshalIndent(list) written to standard output
+	type emit struct {
+		rt   routine
+		call *ssa.Call // the call that produces the JSON text
+		list ssa.Value
+		out  *ssa.Call // the call that writes it (== call for Encode)
+	}
+	var emits []emit
+	for _, rt := range routines {
+		rt := rt
+		ssau.ForEachInstr(rt.fn, false, func(in ssa.Instruction) {
+			call, ok := in.(*ssa.Call)
+			if !ok {
+				return
+			}
+			switch n := ssau.CallName(call); {
+			case n == "(*encoding/json.Encoder).Encode":
+				emits = append(emits, emit{rt, call, ssau.Strip(call.Common().Args[1]), call})
+			case n == "encoding/json.Marshal" || n == "encoding/json.MarshalIndent":
+				emits = append(emits, emit{rt, call, ssau.Strip(call.Common().Args[0]), nil})
+			}
+		})
+	}
+	if len(emits) != 1 {
+		r.Bad("O-3", fk+"#json-encode", c.P.Pos(run.Pos()), fmt.Sprintf("expected exactly one JSON emission (Encoder.Encode or Marshal) in the json branch fed by a one-item-per-result list, found %d", len(emits)))
+		return
+	}
+	em := emits[0]
 	// the item list may be built by a helper that is handed the result list
 	helperBuilt := false
-	if len(encodes) == 1 && jsonBody == nil {
-		if hc, ok := ssau.Strip(encodes[0].Common().Args[1]).(*ssa.Call); ok {
+	if jsonBody == nil {
+		if hc, ok := em.list.(*ssa.Call); ok {
 			if h := hc.Common().StaticCallee(); h != nil && h.Blocks != nil && h.Pkg != nil && h.Pkg.Pkg.Path() == cliPkg {
 				for pi, a := range hc.Common().Args {
-					if isCellLoad(a) && pi < len(h.Params) && c17OneItemPerElement(h, h.Params[pi]) {
+					if em.rt.isList(a) && pi < len(h.Params) && c17OneItemPerElement(h, h.Params[pi]) {
 						helperBuilt = true
 						r.OK("O-3", fk+"#json-one-item-per-result", c.P.Pos(hc.Pos()), "the helper "+h.Name()+" emits exactly one item per result, in order")
 					}
@@ -742,27 +774,81 @@ func c17Output(c *Ctx, run *ssa.Function) {
 			}
 		}
 	}
-	if len(encodes) != 1 || (jsonBody == nil && !helperBuilt) {
-		r.Bad("O-3", fk+"#json-encode", c.P.Pos(run.Pos()), fmt.Sprintf("expected exactly one Encoder.Encode in the json branch fed by a one-item-per-result list, found %d", len(encodes)))
+	if jsonBody == nil && !helperBuilt {
+		r.Bad("O-3", fk+"#json-encode", c.P.Pos(run.Pos()), "the JSON emission is not fed by a one-item-per-result list")
 		return
 	}
-	enc := encodes[0]
-	// the json region: blocks control dependent on the same conditions as the Encode block
+	// where the text goes: for Marshal, its bytes (possibly with a newline
+	// appended, or converted to a string) are what one write to stdout prints
+	toStdout := false
+	if em.out != nil {
+		if ne, ok := em.call.Common().Args[0].(*ssa.Call); ok && ssau.CallName(ne) == "encoding/json.NewEncoder" {
+			toStdout = isStdout(ne.Common().Args[0])
+		}
+	} else {
+		data := resultValue(em.call, 0)
+		derived := map[ssa.Value]bool{data: true}
+		for changed := true; changed; {
+			changed = false
+			ssau.ForEachInstr(em.rt.fn, false, func(in ssa.Instruction) {
+				v, ok := in.(ssa.Value)
+				if !ok || derived[v] {
+					return
+				}
+				switch x := in.(type) {
+				case *ssa.Call:
+					if ssau.CallName(x) == "builtin.append" && derived[x.Common().Args[0]] {
+						derived[v], changed = true, true
+					}
+				case *ssa.Convert:
+					if derived[x.X] {
+						derived[v], changed = true, true
+					}
+				case *ssa.MakeInterface:
+					if derived[x.X] {
+						derived[v], changed = true, true
+					}
+				}
+			})
+		}
+		ssau.ForEachInstr(em.rt.fn, false, func(in ssa.Instruction) {
+			call, ok := in.(*ssa.Call)
+			if !ok || !isPrintCall(call) {
+				return
+			}
+			n := ssau.CallName(call)
+			a := call.Common().Args
+			switch {
+			case (n == "(*os.File).Write" || n == "(*os.File).WriteString") && len(a) == 2 && derived[a[1]] && isStdout(a[0]):
+				em.out, toStdout = call, true
+			case strings.HasPrefix(n, "fmt.Print") && printCarriesAny(call, derived):
+				em.out, toStdout = call, true
+			}
+		})
+	}
+	r.Check(toStdout, "O-3", fk+"#json-to-stdout", c.P.Pos(em.call.Pos()), "the JSON text is written to os.Stdout", "the JSON text does not reach os.Stdout")
+
+	// the json region: the part of the command under format == "json" — when
+	// the emission lives in a helper, the helper's call must be there, and the
+	// helper itself prints nothing else
 	cd := ssau.ControlDeps(run)
-	encDeps := ssau.TransitiveControlDeps(cd, enc.Block())
+	anchor := em.call.Block()
+	if em.rt.via != nil {
+		anchor = em.rt.via.Block()
+	}
+	encDeps := ssau.TransitiveControlDeps(cd, anchor)
 	var jsonIf *ssau.CtrlDep
 	for i, d := range encDeps {
-		_, x, y, ok := ssau.CondOf(d.If().Cond)
+		_, _, y, ok := ssau.CondOf(d.If().Cond)
 		if !ok {
 			continue
 		}
 		if s, isc := ssau.ConstString(y); isc && s == "json" {
-			_ = x
 			jsonIf = &encDeps[i]
 		}
 	}
 	if jsonIf == nil {
-		r.Unknown("O-3", fk+"#json-branch", c.P.Pos(enc.Pos()), "the Encode call is not under a format == \"json\" test")
+		r.Unknown("O-3", fk+"#json-branch", c.P.Pos(em.call.Pos()), "the JSON emission is not under a format == \"json\" test")
 		return
 	}
 	bad := 0
@@ -777,35 +863,59 @@ func c17Output(c *Ctx, run *ssa.Function) {
 			continue
 		}
 		for _, ins := range b.Instrs {
-			if call, ok := ins.(*ssa.Call); ok && isPrintCall(call) && call != enc {
+			if call, ok := ins.(*ssa.Call); ok && isPrintCall(call) && call != em.out {
 				bad++
 			}
 		}
 	}
-	r.Check(bad == 0, "O-3", fk+"#json-branch-clean", c.P.Pos(enc.Pos()), "only Encoder.Encode writes in the json branch", fmt.Sprintf("%d other output call(s) inside the json branch corrupt the JSON block", bad))
-	// Encode's argument is the list built in the json loop
-	arg := ssau.Strip(enc.Common().Args[1])
-	built := false
-	if phi, ok := arg.(*ssa.Phi); ok {
-		for _, e := range phi.Edges {
+	if em.rt.via != nil {
+		ssau.ForEachInstr(em.rt.fn, true, func(ins ssa.Instruction) {
+			if call, ok := ins.(*ssa.Call); ok && isPrintCall(call) && call != em.out {
+				bad++
+			}
+		})
+	}
+	r.Check(bad == 0, "O-3", fk+"#json-branch-clean", c.P.Pos(em.call.Pos()), "only the JSON emission writes in the json branch", fmt.Sprintf("%d other output call(s) inside the json branch corrupt the JSON block", bad))
+	// the emitted value is the list built in the per-result loop
+	built := helperBuilt
+	switch x := em.list.(type) {
+	case *ssa.Phi:
+		for _, e := range x.Edges {
 			if call, ok := e.(*ssa.Call); ok && ssau.CallName(call) == "builtin.append" {
 				built = true
 			}
 		}
-	}
-	built = built || helperBuilt
-	r.Check(built, "O-3", fk+"#json-encode-arg", c.P.Pos(enc.Pos()), "Encode receives the list built from the results", "Encode is not given the list built in the per-result loop")
-	// stdout target
-	toStdout := false
-	if ne, ok := enc.Common().Args[0].(*ssa.Call); ok && ssau.CallName(ne) == "encoding/json.NewEncoder" {
-		w := ssau.Strip(ne.Common().Args[0])
-		if u, ok := w.(*ssa.UnOp); ok {
-			if g, ok := u.X.(*ssa.Global); ok && g.Name() == "Stdout" {
-				toStdout = true
+	case *ssa.MakeSlice:
+		// filled in place by the item loop
+		if jsonBody != nil {
+			for _, ref := range *x.Referrers() {
+				if ia, ok := ref.(*ssa.IndexAddr); ok && ia.Block() == jsonBody.body {
+					built = true
+				}
 			}
 		}
 	}
-	r.Check(toStdout, "O-3", fk+"#json-to-stdout", c.P.Pos(enc.Pos()), "encoder writes to os.Stdout", "the JSON encoder does not write to os.Stdout")
+	r.Check(built, "O-3", fk+"#json-encode-arg", c.P.Pos(em.call.Pos()), "the JSON emission receives the list built from the results", "the JSON emission is not given the list built in the per-result loop")
+}
+
+// isStdout: v is os.Stdout.
+func isStdout(v ssa.Value) bool {
+	if u, ok := ssau.Strip(v).(*ssa.UnOp); ok {
+		if g, ok := u.X.(*ssa.Global); ok && g.Name() == "Stdout" && g.Pkg != nil && g.Pkg.Pkg.Path() == "os" {
+			return true
+		}
+	}
+	return false
+}
+
+// printCarriesAny: one of the variadic arguments of the print call is in set.
+func printCarriesAny(pc *ssa.Call, set map[ssa.Value]bool) bool {
+	for v := range set {
+		if printCarries(pc, v) {
+			return true
+		}
+	}
+	return false
 }
 
 // isScoreDescComparator recognises an ordering function by descending Score:
